@@ -91,8 +91,8 @@ def configs(tier):
                     out.append(("bool", nf, assign, cmd, ef))
         # disable_all at (top, a) of each file x explicit enable of one code at (top, a) of each file
         if nf <= 2:
-            for da in itertools.product((0, 1), repeat=nf * 2):
-                if not any(da):
+            for da in itertools.product((0, 1, 2), repeat=nf * 2):      # unset / disable_all = true / disable_all = false
+                if 1 not in da:
                     continue
                 for en in itertools.product(range(3), repeat=nf * 2):
                     out.append(("disable_all", nf, da + en, False, True))
@@ -122,7 +122,7 @@ def _build(kind, nf, assign):
         for i in range(nf):
             for j, sc in enumerate(SCOPES[:2]):
                 if da[i * 2 + j]:
-                    files[i].setdefault(sc, {})["disable_all"] = True
+                    files[i].setdefault(sc, {})["disable_all"] = (da[i * 2 + j] == 1)
                 e = en[i * 2 + j]
                 if e:
                     files[i].setdefault(sc, {})[code] = (e == 1)
@@ -205,6 +205,9 @@ def _layer(res, tier, lo, hi):
                                         return sec[code]
                                     if sec.get("disable_all"):
                                         return False
+                                    if sec.get("disable_all") is False:
+                                        # an explicit `disable_all = false` in a more specific section: the less specific ones no longer disable
+                                        return code != "missing_return_annotation"
                         return code != "missing_return_annotation"      # the default: on, except for the off-by-default code
                     exp = (lookup(code1), lookup("undefined_attribute"))
                 res.outcomes["%s:%s" % (kind, "agree" if got == exp else "differ")] += 1
@@ -215,8 +218,9 @@ def _layer(res, tier, lo, hi):
                         picked = [(i, sc) for i, f in enumerate(files) for sc in f if (kind == "int" and f[sc].get("maximum_positional_args") == got)]
                         winner = "f%d/%s" % (picked[0][0], ".".join(picked[0][1]) or "top") if picked and kind == "int" else ""
                     srcs = ">".join("f%d/%s" % (i, ".".join(sc) or "top") for i, sc in (src if not kind.startswith("disable_all") else []))
+                    da_false = str(int(any(sec.get("disable_all") is False for f in files for sec in f.values())))
                     res.violation({"kind": "wrong-effective-value", "opt": kind, "nfiles": str(nf), "extend_first": str(int(ef)), "cmd": str(int(cmd)),
-                                   "expected_order": srcs, "picked": winner}, dict(case, module=list(m)),
+                                   "expected_order": srcs, "picked": winner, "disable_all_false": da_false}, dict(case, module=list(m)),
                                   "%s for module %s: expected %r (precedence %s) but got %r; files=%s extend_config %s"
                                   % (kind, ".".join(m) or "()", exp, srcs or "-", got, files, "first" if ef else "last"))
                     break
